@@ -9,6 +9,23 @@ from architecture_simulator.isa.parser_exceptions import (
 )
 
 
+def convertible_int_literal(base: int):
+    """Returns a pyparsing parse condition that only accepts number tokens which int(token, base) can convert.
+    The grammar alone also matches literals Python refuses (decimals with leading zeros if base is 0, decimals
+    with more digits than the interpreter's int/str conversion limit); those are syntax errors of the line they
+    occur in, not a ValueError somewhere in a later pass.
+    """
+
+    def condition(tokens) -> bool:
+        try:
+            int(tokens[0], base)
+        except ValueError:
+            return False
+        return True
+
+    return condition
+
+
 class Parser(ABC):
     """
     An abstract base class for Parsers that can provides some basic functionality
